@@ -435,6 +435,9 @@ func (cl *clusterT) run(o op) (st stepOut) {
 			for _, c := range st.Meta {
 				after[c.Key] = true
 			}
+			if err != nil {
+				return
+			}
 			for k := range before {
 				if !after[k] {
 					cl.noteDeleted(k)
